@@ -14,6 +14,7 @@ import Proofs.C01Open
 import Proofs.C01ReadFull
 import Proofs.C01Limit
 import Proofs.C01Alias
+import Proofs.C01Clone
 /-!
   C01 — bit-exact reads through any composition of bit and file readers: property theorems about the
   model (FqModel/Bitio.lean: Read64/Write64/copyBufBits/Buffer; FqModel/C01Readers.lean: the readers;
@@ -361,6 +362,35 @@ example :
         [stepAt 9 [0] m (.seek 0 .current), stepAt 9 [0] m (.read 4), stepAt 9 [1] m (.read 8)].map
           (fun o => match o with | .ok (_, res) => (res.n, res.bits.length, res.err) | _ => (-1, 0, none))
       | _ => []) = [(4, 0, none), (4, 4, none), (8, 8, none)] := by
+  decide
+
+/-- `clone_independent`.  An IOBitReadSeeker and its clones (CloneReader / CloneReadSeeker / CloneReadAtSeeker /
+    CloneReaderAtSeeker: new instances over the SAME io.ReadSeeker, iobitreadseeker.go:101) over any well-formed
+    byte stack — a bytes.Reader, a file, the ahead/progress/ctx stack of interp._open — are independent cursors:
+    for EVERY interleaving of ReadBitsAt / ReadBits / SeekBits / clone operations on the members of the family the
+    observations are those of `famSpec`, in which every cursor is a specification machine of its own over the byte
+    string and nothing is shared — whatever the other members did to the shared reader in between (each
+    ReadBitsAt seeks the shared reader itself; nothing about its position is remembered between calls). -/
+theorem clone_independent (d : Nat) (data : List UInt8) (b : Rd) (pos : Nat) (hb : ByteAt d data b pos)
+    (sts : List (Int × List UInt8)) (ops : List (Nat × HOp)) :
+    famRun (d + 1) (sts.map (fun st => Rd.ioBits b st.1 st.2)) ops = famSpec data sts ops :=
+  clone_independent' d data ops sts b pos hb
+
+/-- … in particular the reader interp._open hands out, and its clones -/
+theorem open_stack_clones_independent (data : List UInt8) (ops : List (Nat × HOp)) :
+    famRun depthFuel [openStack data] ops = famSpec data [(0, [])] ops := by
+  have := clone_independent' 31 data ops [(0, [])] _ 0 (openStack_byteAt data true data.length 27)
+  exact this
+
+/-- non-vacuity, and the history of seeded change S4-C01-1 on the model: original reads a byte, its clone reads
+    three bytes (moving the shared reader), the original's next sequential read still delivers byte 1 -/
+example :
+    (famRun depthFuel [newIOBits (.raw [0x11, 0x22, 0x33, 0x44] 0 false)]
+        [(0, .read 8), (0, .clone), (1, .read 24), (0, .read 8), (1, .seek 0 .current), (0, .seek 0 .current)]).map
+      (fun x => match x.2.2 with | .ok res => (res.n, res.bits.length, res.err) | _ => (-1, 0, none))
+    = [(8, 8, none), (0, 0, none), (24, 24, none), (8, 8, none), (24, 0, none), (16, 0, none)] ∧
+    (match step depthFuel (.ioBits (.raw [0x11, 0x22, 0x33, 0x44] 3 false) 8 []) (.read 8) with
+      | .ok (_, res) => res.bits | _ => []) = byteToBits 0x22 := by
   decide
 
 /-! ### histories -/
